@@ -380,4 +380,11 @@ FIXTURES = {
     "r2_who_may_touch": {"dir": "c04_r2", "expect_construct": "numpy.random.seed"},
 }
 
-RULES = [r1_context_manager, r2_who_may_touch, r3_mode_seed_reaches_pipeline, r4_seeded_models, r5_uncontrolled_draws]
+def r6_island_seed_pairing(ctx):
+    """Repeating a seeded calibration gives the same result only if island k always receives seed k: islands are created and appended in the order of the derived seeds (shared with C07.R5)."""
+    from props.C07 import r5_island_order
+
+    r5_island_order(ctx)
+
+
+RULES = [r6_island_seed_pairing, r1_context_manager, r2_who_may_touch, r3_mode_seed_reaches_pipeline, r4_seeded_models, r5_uncontrolled_draws]
